@@ -36,9 +36,10 @@ CHECKS = {
     "C10": dict(
         engine="simsym", category="translation_validation", ref="DESIGN.md 2, 5 (C10)",
         technique="SMT-based translation validation (z3 QF_UFBV): every bound value is a distinct symbolic witness, each use is compared with a universally quantified witness",
-        text="Binding structures over two names: all pattern shapes with <= 3 leaves over {a,b,_}, nested blocks, binding match arms, calls of functions whose parameters are named a/b; "
-             "statement sequences of length 1-2 exhaustively (seeded subset of pattern pairs in quick) and seeded random sequences of length 3-4 with nesting depth <= 3. After every statement every bound name is "
-             "observed, so 'which binding does this use denote' is decided by the solver for all values. Seven ill-scoped programs must be rejected by the front end.",
+        text="Binding structures over two names: all pattern shapes with <= 3 leaves over {a,b,_}, nested blocks, binding match arms, calls of functions of arity 0..3 whose parameters are named a/b and whose bodies re-bind them "
+             "(plain, tuple, match-arm, Option-arm); statement sequences of length 1-2 exhaustively (seeded subset of pattern pairs in quick), seeded random sequences of length 3-4 with nesting depth <= 3, and a second seeded slice in which "
+             "every binding picks its own leaf type (u8/u16/u32) so that the typing-side and the code-generation-side scope stacks can disagree. After every statement every bound name is observed, so 'which binding does this use denote' "
+             "is decided by the solver for all values. A family member the front end rejects is a violation; seven ill-scoped programs must be rejected.",
         note=TRUST_E1),
     "C13": dict(
         engine="simsym", category="translation_validation", ref="DESIGN.md 2, 5 (C13)",
